@@ -470,6 +470,12 @@ class Folder:
             pv = promoted_pointee(t[1])
             if pv is not None and (pv[0] == 'agg' or (pv[0] == 'const' and isinstance(pv[1], int))):
                 return self.ev(pv)
+            if pv is not None and pv[0] == 'field':
+                inner = pv
+                while inner[0] == 'field':
+                    inner = inner[1]
+                if inner[0] == 'agg' or (inner[0] == 'const' and isinstance(inner[1], int)):
+                    return self.ev(pv)      # field of a promoted newtype / struct constant (`x == Self::CONST` on a tuple struct)
         if k == 'const':
             if isinstance(t[1], int):
                 return t[1]
